@@ -339,6 +339,18 @@ def _wiring(ctx):
             v = r.value
             ok = isinstance(v, ast.Call) and isinstance(v.func, ast.Attribute) and v.func.attr == ro and \
                 is_self_attr(v.func.value, "_ramberg_osgood_relation") and len(v.args) == 1 and norm_text(v.args[0]) == arg
+            if not ok:
+                # on the symbolic value: value-preserving conversions (astype, np.asarray, a private helper that does either)
+                # are the identity
+                from ..absint import Interp, TermDomain, term_alternatives
+                try:
+                    tv = Interp(prog, TermDomain(), follow=lambda c_: c_.name.startswith("_")).run(
+                        f, [("p", q) for q in f.params if q != "self"])
+                    want = ("m", ("self", "_ramberg_osgood_relation"), ro, (("p", arg),), ())
+                    alts = term_alternatives(tv)
+                    ok = bool(alts) and all(a_ == want for a_ in alts)
+                except Exception:
+                    ok = False
             if ok:
                 ctx.holds(f, r, "%s.%s(%s, ...) = RambergOsgood.%s(%s)" % (ci.name, mname, arg, ro, arg), rule="R-C06-1")
             else:
@@ -497,6 +509,56 @@ def _convergence(ctx):
                     ctx.violated(f, st, "%s writes a retry result back without checking that the retry converged" % name)
 
 
+def identity_helpers(prog, module):
+    """names of the module-level private functions of `module` that return their first argument up to a value-preserving
+    conversion (astype, np.asarray, float): decided on the symbolic value"""
+    cache = prog.__dict__.setdefault("_identity_helpers", {})
+    if module.name in cache:
+        return cache[module.name]
+    from ..absint import Interp, TermDomain, term_alternatives
+    out = set()
+    for key, fi in prog.functions.items():
+        if fi.module is module and fi.cls is None and fi.parent is None and fi.name.startswith("_") and fi.params:
+            try:
+                tv = Interp(prog, TermDomain(), follow=lambda c_: False).run(fi, [("p", q) for q in fi.params])
+                alts = term_alternatives(tv)
+                if alts and all(a_ == ("p", fi.params[0]) for a_ in alts):
+                    out.add(fi.name)
+            except Exception:
+                pass
+    cache[module.name] = out
+    return out
+
+
+def strip_identity_conversions(prog, fi, body):
+    """the statement list without value-preserving re-bindings of a name:  x = x.astype(float) / x = np.asarray(x) /
+    x = _ident(x)  and  `if not isinstance(x, float): <such a re-binding>`"""
+    idents = identity_helpers(prog, fi.module)
+
+    def rebinding(st):
+        if isinstance(st, ast.Assign) and len(st.targets) == 1 and isinstance(st.targets[0], ast.Name):
+            x, v = st.targets[0].id, st.value
+            if isinstance(v, ast.Call) and isinstance(v.func, ast.Attribute) and v.func.attr == "astype" and \
+                    isinstance(v.func.value, ast.Name) and v.func.value.id == x:
+                return True
+            if isinstance(v, ast.Call) and isinstance(v.func, ast.Name) and (v.func.id in idents or v.func.id == "float") and \
+                    len(v.args) == 1 and isinstance(v.args[0], ast.Name) and v.args[0].id == x:
+                return True
+            if isinstance(v, ast.Call) and call_name(v) in ("np.asarray", "np.asanyarray") and v.args and \
+                    isinstance(v.args[0], ast.Name) and v.args[0].id == x:
+                return True
+        return False
+    out = []
+    for st in body:
+        if rebinding(st):
+            continue
+        if isinstance(st, ast.If) and not st.orelse and all(rebinding(x) for x in st.body) and \
+                any(isinstance(c_, ast.Call) and call_name(c_) == "isinstance" for c_ in ast.walk(st.test)):
+            continue
+        out.append(st)
+    return out
+
+
 def _res_parity(prog, ci, name, known, depth=0):
     if name in known:
         return known[name]
@@ -526,6 +588,8 @@ def _res_parity(prog, ci, name, known, depth=0):
                 return "even" if a == "even" or fn == "np.ones_like" else (None if fn != "np.cos" else "even")
             if isinstance(e.func, ast.Attribute) and e.func.attr == "astype":
                 return par(e.func.value)
+            if isinstance(e.func, ast.Name) and e.func.id in identity_helpers(prog, f.module) and e.args:
+                return par(e.args[0])               # a private conversion helper: the identity
             if isinstance(e.func, ast.Attribute) and isinstance(e.func.value, ast.Attribute) and \
                     is_self_attr(e.func.value, "_ramberg_osgood_relation"):
                 a = par(e.args[0]) if e.args else None
@@ -684,7 +748,7 @@ def _siblings(ctx):
         a, b = prog.lookup_method(en, name), prog.lookup_method(sb, name)
         if a is None or b is None:
             raise AnalysisError("helper %s missing in one law class" % name)
-        d, na, nb = diff_blocks(a.node.body, b.node.body)
+        d, na, nb = diff_blocks(strip_identity_conversions(prog, a, a.node.body), strip_identity_conversions(prog, b, b.node.body))
         if not d and norm_text(a.node.args) == norm_text(b.node.args):
             ctx.holds(b, b.node, "%s identical in ExtendedNeuber and SeegerBeste (%d statements)" % (name, na))
         else:
@@ -724,7 +788,7 @@ def _siblings(ctx):
             sub = dict(helper_map)
             if len(a.params) == len(b.params):
                 sub.update({x: y for x, y in zip(a.params, b.params) if x != y})
-            d, na, nb = diff_blocks(a.node.body, b.node.body, mapping=sub)
+            d, na, nb = diff_blocks(strip_identity_conversions(prog, a, a.node.body), strip_identity_conversions(prog, b, b.node.body), mapping=sub)
             pa = [sub.get(x, x) for x in a.params]
             if not d and pa == b.params:
                 ctx.holds(b, b.node, "%s.%s == %s under the Masing substitution" % (ci.name, s, p))
